@@ -33,7 +33,8 @@ pub fn short_name(type_name: &str) -> &'static str {
 
 thread_local! {
     static HELD: RefCell<Vec<(usize, &'static str)>> = RefCell::new(vec![]);
-    static MANAGED: RefCell<Option<usize>> = RefCell::new(None);
+    /// (scheduler id, thread id): a thread leaked by an earlier scheduler is invisible to later ones
+    static MANAGED: RefCell<Option<(usize, usize)>> = RefCell::new(None);
 }
 
 // ------------------------------------------------------------------------------------ recorder
@@ -123,9 +124,12 @@ pub struct SchedState {
 }
 
 pub struct Sched {
+    pub id: usize,
     pub st: Mutex<SchedState>,
     pub cv: Condvar,
 }
+
+static NEXT_SCHED: std::sync::atomic::AtomicUsize = std::sync::atomic::AtomicUsize::new(1);
 
 #[derive(Debug, Clone, PartialEq, Eq)]
 pub enum Stuck {
@@ -138,6 +142,7 @@ pub enum Stuck {
 impl Sched {
     pub fn new(n: usize) -> Arc<Sched> {
         Arc::new(Sched {
+            id: NEXT_SCHED.fetch_add(1, std::sync::atomic::Ordering::SeqCst),
             st: Mutex::new(SchedState {
                 threads: vec![TState::NotStarted; n],
                 owner: HashMap::new(),
@@ -154,7 +159,7 @@ impl Sched {
 
     /// called by a managed thread when it starts: parks until first scheduled
     pub fn thread_start(&self, tid: usize) {
-        MANAGED.with(|m| *m.borrow_mut() = Some(tid));
+        MANAGED.with(|m| *m.borrow_mut() = Some((self.id, tid)));
         let mut st = self.st.lock().unwrap();
         st.threads[tid] = TState::Woken;
         self.cv.notify_all();
@@ -173,8 +178,11 @@ impl Sched {
         self.cv.notify_all();
     }
 
-    fn me() -> Option<usize> {
-        MANAGED.with(|m| *m.borrow())
+    fn me(&self) -> Option<usize> {
+        MANAGED.with(|m| match *m.borrow() {
+            Some((sid, tid)) if sid == self.id => Some(tid),
+            _ => None,
+        })
     }
 
     /// which threads can be scheduled now
@@ -258,7 +266,7 @@ impl Sched {
 
 impl SyncObserver for Sched {
     fn before_lock(&self, mutex: usize, name: &'static str) {
-        let tid = match Self::me() {
+        let tid = match self.me() {
             Some(t) => t,
             None => return,
         };
@@ -281,7 +289,7 @@ impl SyncObserver for Sched {
         st.threads[tid] = TState::Running;
     }
     fn acquired(&self, mutex: usize, name: &'static str) {
-        if let Some(tid) = Self::me() {
+        if let Some(tid) = self.me() {
             let mut st = self.st.lock().unwrap();
             st.owner.insert(mutex, tid);
             st.held[tid].push((mutex, name));
@@ -289,7 +297,7 @@ impl SyncObserver for Sched {
         }
     }
     fn released(&self, mutex: usize, name: &'static str) {
-        if let Some(tid) = Self::me() {
+        if let Some(tid) = self.me() {
             let mut st = self.st.lock().unwrap();
             st.owner.remove(&mutex);
             if let Some(p) = st.held[tid].iter().rposition(|(m, _)| *m == mutex) {
@@ -299,7 +307,7 @@ impl SyncObserver for Sched {
         }
     }
     fn wait_begin(&self, condvar: usize, _mutex: usize) -> bool {
-        let tid = match Self::me() {
+        let tid = match self.me() {
             Some(t) => t,
             None => return false,
         };
@@ -320,7 +328,7 @@ impl SyncObserver for Sched {
     fn wait_end(&self, _condvar: usize, _mutex: usize) {}
     fn notified(&self, condvar: usize) {
         let mut st = self.st.lock().unwrap();
-        if let Some(tid) = Self::me() {
+        if let Some(tid) = self.me() {
             st.trace.push(Event::Notify(tid));
         }
         for t in st.threads.iter_mut() {
